@@ -658,7 +658,12 @@ class CursedHR:
             warnings.simplefilter("ignore", SyntaxWarning)
 
             for command in self.configuration.filter:
-                if not eval(command, self.entries[entry_id].__dict__):
+                try:
+                    if not eval(command, self.entries[entry_id].__dict__):
+                        return False
+                except Exception:
+                    # The filter was only validated against a test entry (see parse_filter);
+                    # an entry on which it cannot be evaluated does not match.
                     return False
 
         return True
